@@ -7,7 +7,7 @@
 (* GEN configurations print the cases executed on the real code.                   *)
 EXTENDS Render
 
-CONSTANTS Mode, MCFields, MCValues, MaxSets, WMax
+CONSTANTS Mode, MCFields, MCValues, MaxSets, MCSub, WMax
 
 VARIABLES val, hist,        \* tree: valuation, sequence of Sets applied so far
           o, b, e,          \* window: descriptor, time_begin, time_end
@@ -16,7 +16,9 @@ vars == <<val, hist, o, b, e, a, w>>
 
 Val0    == [p \in Pairs(MCFields) |-> "default"]
 NoDesc  == [kind |-> "env", t0 |-> 0, n |-> 0]
-Acts    == [n : Nodes, f : MCFields, v : MCValues]
+(* Sets are issued at the root and at every node of the subtree MCSub ("" = at every node of the tree) *)
+ActNodes == IF MCSub = "" THEN Nodes ELSE {<<>>} \cup {m \in Nodes : Len(m) >= 1 /\ m[1] = MCSub}
+Acts    == [n : ActNodes, f : MCFields, v : MCValues]
 Apply(vl, act) == SetOp(vl, act.n, act.f, act.v)
 
 Init == /\ val = (IF Mode = "tree" THEN Val0 ELSE <<>>) /\ hist = <<>>
